@@ -71,6 +71,27 @@ def run_unit(A, unit, rep, tier):
                     rep.ok("C06.d", f"C06.d {g.label}: the object is registered for the class-wide flush on every path")
                 else:
                     rep.fail("C06.d", norm_key("C06.d", f.qualname), f"{f.qualname} can complete without registering the object for the class-wide flush: leaving the buffered state would skip it", g.witness(w or []), g.label)
+    # (e) serialized strategy: a new entry's reference hash is the hash of exactly the contents stored with it
+    for cls in A.concrete():
+        if cls.is_subclass_of("SerializedFileBufferedCollection") and not A.is_list(cls) and not cls.is_subclass_of("AttrDict"):
+            b, g = A.graph(cls, "_initialize_data_in_buffer", "root", "obj")
+            rep.context(g.label, True)
+            ins = [n for n in live(g) if n.kind == "cs_write" and n["name"] == "_buffer" and n["op"] == "setitem" and n["target"].kind == "cattr" and n["value"].kind == "dict"]
+            f = A.model.lookup(cls, "_initialize_data_in_buffer")[1].func
+            good = False
+            for n in ins:
+                d = {k.args[0]: v for k, v in n["value"].args if k is not None and k.kind == "const"}
+                c, h = d.get("contents"), d.get("hash")
+                if c is not None and h is not None:
+                    fed = [x.args[1] for x in h.walk() if x.kind == "mut"]  # what is fed into the hash object
+                    uses = bool(fed) and all(a == (c,) for a in fed)
+                    if not fed:
+                        uses = any(x.kind == "call" and x.args[2] == (c,) for x in h.walk())
+                    good = uses
+            if good:
+                rep.ok("C06.e", f"C06.e {f.qualname}: the reference hash of a new entry is the hash of the stored contents")
+            else:
+                rep.fail("C06.e", norm_key("C06.e", f.qualname), f"{f.qualname}: the reference hash stored with a new buffer entry is not (unconditionally) the hash of the contents stored with it: a file that was only read looks modified (or a modified one unmodified)", [], g.label)
     fb = {}
     for cls in A.concrete():
         if A.is_buffered(cls):
